@@ -10,7 +10,7 @@ from ..core import Report, Finding, AnalysisError
 from ..facts import Facts
 from ..astutil import unparse, dotted, walk_no_nested
 from ..callgraph import CallGraph
-from ..prov import Prov, DIRKINDS, coarse
+from ..prov import Prov, DIRKINDS, coarse, is_cwd_expr
 from ..pathwalk import loop_paths, MUTATORS
 from ..immsites import find_all
 
@@ -24,6 +24,17 @@ def stmt_of(node):
     while cur is not None and not isinstance(cur, ast.stmt):
         cur = getattr(cur, '_parent', None)
     return cur if cur is not None else node
+
+
+def defer(rep, message):
+    """An "I do not understand this" verdict that must not mask a violation established elsewhere: raised at the end of the run
+    only when no finding was made."""
+    rep.__dict__.setdefault('deferred', []).append(message)
+
+
+def raise_deferred(rep):
+    if not rep.findings and rep.__dict__.get('deferred'):
+        raise AnalysisError(rep.deferred[0])
 
 
 def classify_sink(pv, q, name, arg):
@@ -42,8 +53,8 @@ def check_sinks(rep, facts, cg, pv, rule, reach):
     for q, node, name, arg in sinks:
         verdict, ks = classify_sink(pv, q, name, arg)
         if verdict == 'unknown':
-            raise AnalysisError('{}: the path given to {}({}) could not be classified (kinds {}): no verdict'.format(
-                q, name, unparse(arg), sorted(ks) or ['none']))
+            defer(rep, '{}: the path given to {}({}) could not be classified (kinds {}): no verdict'.format(q, name, unparse(arg), sorted(ks) or ['none']))
+            continue
         k = coarse(ks)
         rep.check(verdict == 'ok', rule, '{}: {}({}) receives a {} path'.format(q, name, unparse(arg), k),
                   lambda q=q, node=node, name=name, arg=arg, ks=ks: Finding(
@@ -52,8 +63,12 @@ def check_sinks(rep, facts, cg, pv, rule, reach):
                       line=node.lineno))
     for q in reach:
         for n in walk_no_nested(cg.funcs[q]):
-            if isinstance(n, ast.Call) and dotted(n.func) == 'os.getcwd':
-                rep.check(pv.on_source_string_branch(q, n), rule + '.cwd', '{}: os.getcwd() only when the input is a source string'.format(q),
+            if is_cwd_expr(n):
+                g = pv.cwd_guard(q, n)
+                if g == 'unknown':
+                    defer(rep, '{}: the conditions under which the working directory ({}) is consulted are not understood: no verdict'.format(q, unparse(n)))
+                    continue
+                rep.check(g == 'guarded', rule + '.cwd', '{}: the working directory ({}) is consulted only when the input is a source string'.format(q, unparse(n)),
                           lambda q=q, n=n: Finding(rule + '.cwd', q, n, 'the working directory takes part in resolving includes of a *file*', line=n.lineno))
     return sinks
 
@@ -106,8 +121,8 @@ def check_reader(rep, facts, cg, pv, reach):
                 ks |= pv.kinds(arg, q)
             ks -= {'NoneK'}
             if ks & UNCLASSIFIED and not ks & BAD:
-                raise AnalysisError('{}: the path handed to the recursive read could not be classified ({})'.format(q, sorted(ks)))
-            if ks != {'Resolved'}:
+                defer(rep, '{}: the path handed to the recursive read could not be classified ({})'.format(q, sorted(ks)))
+            elif ks != {'Resolved'}:
                 problems.append('passes a {} path'.format('/'.join(sorted(ks)) or 'missing'))
             for p in flag_params:
                 vals = bound.get(p, [])
@@ -119,8 +134,8 @@ def check_reader(rep, facts, cg, pv, reach):
                     dk |= pv.kinds(arg, q)
                 dk -= {'NoneK'}
                 if dk & UNCLASSIFIED:
-                    raise AnalysisError('{}: the directory list handed to the recursive read could not be classified ({})'.format(q, sorted(dk)))
-                if 'Dir' not in dk:
+                    defer(rep, '{}: the directory list handed to the recursive read could not be classified ({})'.format(q, sorted(dk)))
+                elif 'Dir' not in dk:
                     problems.append('does not hand the caller\'s include directories down ({} is {})'.format(p, '/'.join(sorted(dk)) or 'None'))
                 elif dk - {'Dir'}:
                     problems.append('hands down a directory list that also holds {} (directories of this file leak into nested includes)'.format(
@@ -134,12 +149,22 @@ def check_reader(rep, facts, cg, pv, reach):
     n_search = 0
     for q in reach:
         for n in walk_no_nested(cg.funcs[q]):
-            if isinstance(n, ast.Call) and dotted(n.func) == 'os.path.join' and n.args and not isinstance(n.args[0], ast.Starred):
-                ks = set(pv.kinds(n.args[0], q)) - {'NoneK'}
+            first = None
+            if isinstance(n, ast.Call) and dotted(n.func) == 'os.path.join' and len(n.args) > 1 and not isinstance(n.args[0], ast.Starred):
+                first = n.args[0]
+            elif isinstance(n, ast.BinOp) and isinstance(n.op, ast.Div):
+                first = n.left
+            elif isinstance(n, ast.Call) and isinstance(n.func, ast.Attribute) and n.func.attr == 'joinpath' and n.args:
+                first = n.func.value
+            if first is not None:
+                ks = set(pv.kinds(first, q)) - {'NoneK'}
                 if not ks & DIRKINDS:
                     continue
                 n_search += 1
                 missing = [k for k in ('Dir', 'AdjDir') if k not in ks]
+                if missing and ks & UNCLASSIFIED:
+                    defer(rep, '{}: the directories searched by {} could not be classified ({})'.format(q, unparse(n)[:60], sorted(ks)))
+                    continue
                 rep.check(not missing, 'R14.2.adjacent', '{}: the search ranges over the -i directories and the directory of the including file'.format(q),
                           lambda q=q, n=n, ks=ks, missing=missing: Finding(
                               'R14.2.adjacent', q, n, 'the include search joins the name with directories of kind {} only: {} not searched'.format(
@@ -262,6 +287,7 @@ def run(repo, tier):
     check_sinks(rep, facts, cg, pv, 'R14.1.provenance', reach)
     check_reader(rep, facts, cg, pv, reach)
     check_cli(rep, facts, cg, pv)
+    raise_deferred(rep)
     rep.floor('filesystem sinks reachable from assemble', 5)
     rep.floor('recursive include calls', 1)
     rep.floor('include search sites', 1)
